@@ -1022,6 +1022,8 @@ enum Op {
   AddUnrelated,
   Revert,
   Recreate,
+  /// the whole content goes away (and comes back with the next revert)
+  RemoveAll,
   Verify,
 }
 
@@ -1101,22 +1103,31 @@ fn history(ctx: &Ctx, seed: u64) -> Report {
   if md5 {
     create.push("--md5".into());
   }
+  // (a name may hold a separator or dots: it is a label, not a location - the torrent then needs an explicit output)
+  let new_name: &str = if rename { *rng.pick(&["renamed", "renamed", "AC/DC - Live", "a/b", "name.with.dots", "..", "x/"]) } else { "data" };
+  // (or the torrent file is called something else than what it describes)
+  let odd_output = !rename && rng.chance(1, 4);
   if rename {
     create.push("--name".into());
-    create.push("renamed".into());
+    create.push(new_name.into());
+  }
+  if new_name.contains('/') || new_name == ".." || odd_output {
+    create.push("--output".into());
+    create.push("in/zzz.torrent".into());
   }
   // other options of create ride along: whatever metadata they add, the created torrent must verify
   let noise = super::create_noise(&mut rng, &["--md5"]);
   create.extend(noise.iter().cloned());
   let out = Cmd::args_owned(&ctx.imdl, create.clone()).cwd(&sb.root).run();
-  let case0 = json!({"history_seed": seed, "p": p, "single": single, "md5": md5, "rename": rename, "other_options": noise, "files": orig.iter().map(|f| (f.0.clone(), f.1.len())).collect::<Vec<_>>()});
+  let case0 = json!({"history_seed": seed, "p": p, "single": single, "md5": md5, "rename": rename, "name": new_name, "torrent_file_named_otherwise": odd_output, "other_options": noise, "files": orig.iter().map(|f| (f.0.clone(), f.1.len())).collect::<Vec<_>>()});
   r.case(None);
   if !out.ok() {
     r.fail("property", "create-failed", case0, format!("create failed: {}", out.stderr_s()));
     return r;
   }
   // default location: next to the input, under the torrent's name
-  let torrent_rel = if rename { "in/renamed.torrent" } else { "in/data.torrent" };
+  let torrent_rel_s = if new_name.contains('/') || new_name == ".." || odd_output { "in/zzz.torrent".to_string() } else { format!("in/{new_name}.torrent") };
+  let torrent_rel = torrent_rel_s.as_str();
   let Ok(torrent) = std::fs::read(sb.path(torrent_rel)) else {
     r.fail("property", "create-default-location", case0, format!("torrent not written at the documented default location {torrent_rel}"));
     return r;
@@ -1149,6 +1160,7 @@ fn history(ctx: &Ctx, seed: u64) -> Report {
       5 => Op::AddUnrelated,
       6 | 7 => Op::Revert,
       8 => Op::Recreate,
+      9 if rng.chance(1, 2) => Op::RemoveAll,
       _ => Op::Verify,
     });
     if rng.chance(2, 3) {
@@ -1213,6 +1225,15 @@ fn history(ctx: &Ctx, seed: u64) -> Report {
         let _ = std::fs::remove_file(&pth);
         std::fs::create_dir_all(&pth).unwrap();
         cur.insert(n, Node::Dir);
+        edits += 1;
+      }
+      Op::RemoveAll => {
+        let root = sb.path("in/data");
+        let _ = std::fs::remove_file(&root);
+        let _ = std::fs::remove_dir_all(&root);
+        for (n, _) in &orig {
+          cur.insert(n.clone(), Node::Missing);
+        }
         edits += 1;
       }
       Op::AddUnrelated => {
